@@ -31,9 +31,15 @@ func TestMain(m *testing.M) {
 type Case struct {
 	Corpus string `json:"corpus"`
 	Hop    int    `json:"hop"`
-	Kind   string `json:"kind"` // cut reset stall trickle notls garbage tlsgarbage refused none
+	Kind   string `json:"kind"` // cut reset stall trickle notls garbage tlsgarbage refused garble none
 	At     int    `json:"at"`
+	G      int    `json:"g,omitempty"` // garble: which piece of garbage is inserted at byte At of the response
 }
+
+// garbage a confused or hostile server may put anywhere into an otherwise complete response: the fetch may succeed or
+// fail (the statement only fixes the verdict for truncation), but it ends in time and nothing crashes
+var garblePool = []string{" \r\n", "\t\r\n", " x\r\n", "\r\n", "\n", ":\r\n", ": \r\n", "\x00", "\x00\x00\x00\x00", "\xff\xfe", "\r", "\r\r\n", " ", "\t", "Content-Type\r\n",
+	"Content-Type:\r\n", "content-type: \r\n", "HTTP/1.1 200 OK\r\n", "\r\n\r\n", "{", "}", "\"", "\\", "[", "null", ",", strings.Repeat("A", 70000), strings.Repeat(" ", 5000) + "\r\n", "Location: \r\n", "Location: https://\r\n"}
 
 type exchange struct {
 	host   int
@@ -109,6 +115,8 @@ func mustFail(resp string, c Case) (must bool, may bool) {
 		return false, false
 	case "notls", "garbage", "tlsgarbage", "refused":
 		return true, false
+	case "garble":
+		return false, true
 	}
 	// cut / reset / stall / trickle at offset At of this response: needEnd is the
 	// offset after which servitor has received everything it needs from it
@@ -154,6 +162,13 @@ func check(c Case) vrep.Result {
 			target = prefix + target
 		}
 		if i == c.Hop {
+			if c.Kind == "garble" {
+				at := c.At
+				if at > len(r.Raw) {
+					at = len(r.Raw)
+				}
+				r.Raw = r.Raw[:at] + garblePool[c.G%len(garblePool)] + r.Raw[at:]
+			}
 			faultedResp = sim.Expand(r.Raw, ex.host, prefix)
 			switch c.Kind {
 			case "cut", "reset", "stall":
@@ -254,7 +269,17 @@ func check(c Case) vrep.Result {
 	return vrep.Result{Classes: classes, Nontrivial: !trivial, May: may}
 }
 
+func clipG(s string) string {
+	if len(s) > 40 {
+		return s[:40] + "…"
+	}
+	return s
+}
+
 func describe(c Case) string {
+	if c.Kind == "garble" {
+		return fmt.Sprintf("corpus %s, hop %d, %q inserted at byte %d", c.Corpus, c.Hop, clipG(garblePool[c.G%len(garblePool)]), c.At)
+	}
 	return fmt.Sprintf("corpus %s, hop %d, fault %s at byte %d", c.Corpus, c.Hop, c.Kind, c.At)
 }
 
@@ -318,10 +343,10 @@ func TestStalls(t *testing.T) {
 				statusEnd := strings.Index(resp, "\n") + 1
 				headersEnd := strings.Index(resp, "\r\n\r\n") + 4
 				stages := []Case{
-					{name, hop, "none", 0}, {name, hop, "notls", 0}, {name, hop, "garbage", 0}, {name, hop, "tlsgarbage", 0}, {name, hop, "refused", 0},
-					{name, hop, "stall", 0}, {name, hop, "stall", 5}, {name, hop, "stall", statusEnd}, {name, hop, "stall", statusEnd + 9}, {name, hop, "stall", headersEnd},
-					{name, hop, "stall", headersEnd + (len(resp)-headersEnd)/2}, {name, hop, "stall", len(resp) - 1},
-					{name, hop, "trickle", 0}, {name, hop, "trickle", statusEnd}, {name, hop, "trickle", headersEnd},
+					{Corpus: name, Hop: hop, Kind: "none", At: 0}, {Corpus: name, Hop: hop, Kind: "notls", At: 0}, {Corpus: name, Hop: hop, Kind: "garbage", At: 0}, {Corpus: name, Hop: hop, Kind: "tlsgarbage", At: 0}, {Corpus: name, Hop: hop, Kind: "refused", At: 0},
+					{Corpus: name, Hop: hop, Kind: "stall", At: 0}, {Corpus: name, Hop: hop, Kind: "stall", At: 5}, {Corpus: name, Hop: hop, Kind: "stall", At: statusEnd}, {Corpus: name, Hop: hop, Kind: "stall", At: statusEnd + 9}, {Corpus: name, Hop: hop, Kind: "stall", At: headersEnd},
+					{Corpus: name, Hop: hop, Kind: "stall", At: headersEnd + (len(resp)-headersEnd)/2}, {Corpus: name, Hop: hop, Kind: "stall", At: len(resp) - 1},
+					{Corpus: name, Hop: hop, Kind: "trickle", At: 0}, {Corpus: name, Hop: hop, Kind: "trickle", At: statusEnd}, {Corpus: name, Hop: hop, Kind: "trickle", At: headersEnd},
 				}
 				for _, c := range stages {
 					idx++
@@ -343,8 +368,21 @@ func TestProp(t *testing.T) {
 		c := Case{Corpus: rapid.SampledFrom(corpora).Draw(t, "corpus")}
 		_, chain := corpus(c.Corpus)
 		c.Hop = rapid.IntRange(0, len(chain)-1).Draw(t, "hop")
-		c.Kind = rapid.SampledFrom([]string{"cut", "cut", "cut", "reset", "reset", "stall", "trickle", "notls", "garbage", "tlsgarbage", "refused", "none"}).Draw(t, "kind")
+		c.Kind = rapid.SampledFrom([]string{"cut", "cut", "cut", "reset", "reset", "stall", "trickle", "notls", "garbage", "tlsgarbage", "refused", "none", "garble", "garble", "garble"}).Draw(t, "kind")
 		c.At = rapid.IntRange(0, len(chain[c.Hop].raw)+20).Draw(t, "at")
+		if c.Kind == "garble" {
+			c.G = rapid.IntRange(0, len(garblePool)-1).Draw(t, "g")
+			if rapid.IntRange(0, 2).Draw(t, "atlinestart") > 0 {
+				// at the start of a line (status line, each header line, the blank line, the body)
+				starts := []int{0}
+				for i, b := range []byte(chain[c.Hop].raw) {
+					if b == '\n' {
+						starts = append(starts, i+1)
+					}
+				}
+				c.At = rapid.SampledFrom(starts).Draw(t, "linestart")
+			}
+		}
 		return c
 	}, check)
 }
